@@ -1439,7 +1439,8 @@ class AnyEtreeNodeListProperty(_ElementListProperty):
             return
 
         sub_node = self._get_element_by_child_name(node, self._sub_element_name, create_missing_nodes=True)
-        sub_node.extend(py_value)
+        # lxml moves an element that is added to another tree; add copies so that the value stays complete
+        sub_node.extend(xml_utils.copy_node_wo_parent(x) for x in py_value)
 
     def __str__(self) -> str:
         return f'{self.__class__.__name__} in sub-element {self._sub_element_name}'
